@@ -105,6 +105,10 @@ pub struct Pair {
     joined: [bool; 2],
     nq: u64,
     ns_secret: iroh_docs::NamespaceSecret,
+    /// an encoded `Init` frame for the document (what a dialer sends first)
+    init_frame: Vec<u8>,
+    /// dial number -> the decline reply of that dial is lost on the way (from the schedule being replayed)
+    pub abort_lost: std::collections::HashMap<usize, bool>,
 }
 
 impl Pair {
@@ -122,7 +126,12 @@ impl Pair {
             let other = *nodes[1 - n].id.as_bytes();
             nodes[n].sync.register_useful_peer(w.nsid(), other).await?;
         }
-        Ok(Pair { nodes, dials: vec![], ns: w.nsid(), queued: [None, None], joined: [false, false], nq: 0, ns_secret: w.ns.clone() })
+        Ok(Pair { nodes, dials: vec![], ns: w.nsid(), queued: [None, None], joined: [false, false], nq: 0, ns_secret: w.ns.clone(),
+                  init_frame: {
+                      let m = crate::replica::build_message(w, &json!([{"t":"fp","x":[0,0,[]],"y":[0,0,[]],"fp":"impossible"}]), &|_| [0xAB; 32]).0;
+                      iroh_docs::net::verif_codec::encode_frame(iroh_docs::net::verif_codec::Frame::Init { namespace: w.nsid(), message: m })?
+                  },
+                  abort_lost: Default::default() })
     }
 
     fn snapshot(&self) -> (Value, Value) {
@@ -205,8 +214,13 @@ impl Pair {
                 let peer = self.nodes[2 - m].id;
                 let res: Result<SyncFinished, AcceptError> = match a["res"].as_str().unwrap() {
                     "ok" => Ok(finished(ns, peer)),
-                    "AlreadySyncing" => Err(AcceptError::Abort { peer, namespace: ns, reason: AbortReason::AlreadySyncing }),
-                    "NotFound" => Err(AcceptError::Abort { peer, namespace: ns, reason: AbortReason::NotFound }),
+                    // a declined request: the task result is what the REAL acceptor state machine returns when its accept
+                    // callback declines - with the decline frame delivered, or (the schedule loses it) with the dialer gone
+                    r @ ("AlreadySyncing" | "NotFound") => {
+                        let reason = if r == "NotFound" { AbortReason::NotFound } else { AbortReason::AlreadySyncing };
+                        let lost = self.abort_lost.get(&d).copied().unwrap_or(false);
+                        Err(self.declined_by_real_acceptor(m, peer, reason, lost).await)
+                    }
                     _ if d % 2 == 1 => Err(AcceptError::Close { peer, namespace: Some(ns), error: anyhow::anyhow!("close failed") }),
                     _ => Err(AcceptError::Sync { peer, namespace: Some(ns), error: anyhow::anyhow!("sync failed") }),
                 };
@@ -284,6 +298,32 @@ impl Pair {
         ev
     }
 
+    /// Run the real `BobState` of node m against a dialer that sends `Init` and (if `gone`) has already dropped its
+    /// connection, with an accept callback that declines for `reason`; returns the acceptor's error.
+    async fn declined_by_real_acceptor(&self, m: usize, peer: PublicKey, reason: AbortReason, gone: bool) -> AcceptError {
+        use tokio::io::AsyncWriteExt;
+        let ns = self.ns;
+        let (bob_io, peer_io) = tokio::io::duplex(1 << 16);
+        let (bob_r, bob_w) = tokio::io::split(bob_io);
+        let (peer_r, mut peer_w) = tokio::io::split(peer_io);
+        let _ = peer_w.write_all(&self.init_frame).await;
+        let mut keep = Some((peer_r, peer_w));
+        if gone {
+            keep = None; // both halves dropped: the acceptor can still read the buffered Init, its reply cannot be written
+        }
+        let mut st = iroh_docs::net::VerifBobState::new(peer);
+        let sync = self.nodes[m - 1].sync.clone();
+        let res = st
+            .run(bob_w, bob_r, sync, move |_ns, _peer| async move { AcceptOutcome::Reject(reason) })
+            .await;
+        drop(keep);
+        match res {
+            Err(e) => e,
+            // (cannot happen: a declined request never ends in success) - keep the synthesised form
+            Ok(_) => AcceptError::Abort { peer, namespace: ns, reason },
+        }
+    }
+
     /// Between schedules: every node leaves (through the real handler if it joined through it), queued downloads
     /// are reported, and the nodes of `syncing` join again through the real start_sync handler.
     pub async fn reset(&mut self, w: &World, syncing: &[usize]) {
@@ -355,6 +395,8 @@ pub fn run(w: Arc<World>, seed: u64, schedules: Vec<Value>, trace: &mut Trace, s
         trace.emit(json!({"ev":"Reset","run":i,"seed":seed,"syncing":syncing,"hist":acts,"ops":[]}));
         sum.add("histories", 1);
         pair.dials.clear();
+        pair.abort_lost = acts.iter().filter(|a| a["a"] == "DeliverAbort")
+            .map(|a| (a["d"].as_u64().unwrap_or(0) as usize, a["res"] == "lost")).collect();
         rt.block_on(pair.reset(&w, &syncing));
         let evs: Vec<Value> = rt.block_on(async {
             let mut evs = vec![];
